@@ -47,6 +47,7 @@ class Tree:
         for _ in range(L):
             self.ds.append(dclab.new_dataset(self.ds[-1]))
         self.view = [list(range(1, n + 1)) for _ in range(L + 1)]
+        self.patterns = True     # access patterns in observe()
 
     def step(self, st):
         import dclab
@@ -124,6 +125,42 @@ class Tree:
                 except Exception as exc:
                     bad.append("level %d: reading %s raises %s" % (
                         l, f, type(exc).__name__))
+            # access patterns and reported shapes of the event-wise features
+            n = len(idx)
+            if n and self.patterns:
+                sel2 = np.arange(n) % 2 == 0
+                for f in feats:
+                    if f not in ("image", "mask", "contour", "trace"):
+                        continue
+                    try:
+                        if f == "trace":
+                            nm = sorted(root["trace"])[0]
+                            obj, ref = ch["trace"][nm], root["trace"][nm]
+                        else:
+                            obj, ref = ch[f], root[f]
+                        single = [np.asarray(ref[int(e)]) for e in idx]
+                        pats = {"negative int": (obj[-1], single[-1]),
+                                "slice": (obj[0:n:2], single[0:n:2]),
+                                "bool mask": (obj[sel2], single[0:n:2])}
+                        for pn, (got, want) in pats.items():
+                            if pn == "negative int":
+                                ok = np.array_equal(np.asarray(got), want)
+                            else:
+                                got = [np.asarray(g) for g in got]
+                                ok = len(got) == len(want) and all(
+                                    np.array_equal(g, w)
+                                    for g, w in zip(got, want))
+                            if not ok:
+                                bad.append("level %d: %s access '%s' differs"
+                                           % (l, f, pn))
+                        shp = getattr(obj, "shape", None)
+                        if len(obj) != n or (shp is not None
+                                             and shp[0] != n):
+                            bad.append("level %d: %s reports a wrong "
+                                       "length/shape" % (l, f))
+                    except Exception as exc:
+                        bad.append("level %d: %s access pattern raises %s"
+                                   % (l, f, type(exc).__name__))
             man = ch.filter.manual
             if len(man) != len(ids):
                 bad.append("level %d: manual filter has wrong length" % l)
@@ -188,7 +225,9 @@ def _replay(job):
         steps.append(st)
     tree = Tree(root_path, L, 5, kind)
     obs = []
-    for st in steps:
+    for k, st in enumerate(steps):
+        # access patterns at the last refresh only (cost)
+        tree.patterns = k == len(steps) - 1
         try:
             obs.append(tree.step(st))
         except Exception as exc:
@@ -262,7 +301,9 @@ def main(tier, seed, replay=None):
     ev.rule = ("every history of HierarchySpec made of (edit; rejuvenate) "
                "pairs (range filter on any level, manual exclude/include by "
                "position on any level, root data/config change) up to the "
-               "depth bound for 2 (and 3) nested children over a 5-event "
+               "depth bound for 2 (and 3, 4) nested children (plus focused "
+               "runs: root windows of different and of equal size with "
+               "manual edits on the youngest of 3 and 4 children) over a 5-event "
                "HDF5 root with scalar/image/mask/contour/trace/ancillary/"
                "temporary features is enumerated by TLC and executed; after "
                "every refresh each level's events (decoded root ids), every "
@@ -292,9 +333,11 @@ def main(tier, seed, replay=None):
     try:
         root_path = scratch / "root.rtdc"
         gen.write_rtdc(root_path, list(range(1, 6)), feats=FEATS)
-        plans = [(2, 6, "HHNext"), (2, 8, "FocusNext")] if q else [
+        plans = [(2, 6, "HHNext"), (2, 8, "FocusNext"), (3, 8, "ShiftNext"),
+                 (4, 6, "ShiftNext")] if q else [
             (2, 8, "HHNext"), (3, 6, "HHNext"), (1, 8, "HHNext"),
-            (3, 10, "FocusNext"), (2, 10, "FocusNext")]
+            (3, 10, "FocusNext"), (2, 10, "FocusNext"), (3, 10, "ShiftNext"),
+            (4, 8, "ShiftNext"), (4, 6, "HHNext")]
         for L, d, nxt in plans:
             res = tlc.run("MC_Hierarchy", CFG.format(L=L, d=d, alt="TRUE",
                                                      next=nxt),
